@@ -121,7 +121,7 @@ func shapeForC12(seed uint64, i int) MsgSpec {
 }
 
 func (p *c12) Gen(seed uint64, i int, tier string) (any, bool) {
-	n := 64
+	n := 160
 	if tier == "thorough" {
 		n = 5000
 	}
